@@ -191,7 +191,12 @@ def dtype_class(ctx, t, fn):
     return None
 
 
+EF = [None]
+
+
 def r4_dtypes(ctx):
+    from ..effects import Effects
+    EF[0] = Effects(ctx.an)
     n = 0
     for qn in GRIDDER_METHODS:
         f = ctx.pkg.fn(qn)
@@ -208,7 +213,15 @@ def r4_dtypes(ctx):
                     cls = None
                 elif dt is None and like:
                     proto = t[2][0] if t[2] else None
-                    cls = "like:" + (show(proto)[:60] if proto else "?")
+                    if proto is None:
+                        cls = None
+                    elif EF[0].aliases(proto):
+                        cls = "like-param:" + show(proto)[:60]
+                    elif proto[0] == "call" and callee(proto) in ("numpy.sqrt", "numpy.log", "numpy.hypot", "numpy.exp", "numpy.sin", "numpy.cos", "numpy.arctan2", "numpy.true_divide") \
+                            or (proto[0] == "binop" and proto[1] == "/") or (proto[0] == "binop" and proto[1] == "+" and proto[2][0] == "call" and callee(proto[2]) in ("numpy.sqrt", "numpy.hypot")):
+                        cls = "float"
+                    else:
+                        cls = None
                 else:
                     cls = dtype_class(ctx, dt, f)
                 key = "%s#%d" % (callee(t).split(".")[1], k)
@@ -230,11 +243,9 @@ def r4_dtypes(ctx):
                 ctx.add("R4", "%s|allocation|%s" % (qn, key), "VIOLATED", "the buffer is allocated with the non-floating dtype %s" % c[9:], fn=qn, line=line)
             elif c.startswith("nonfloat:"):
                 ctx.add("R4", "%s|allocation|%s" % (qn, key), "DISCHARGED", "non-numeric buffer (%s)" % c[9:], fn=qn, line=line, nontrivial=False)
-            elif c.startswith("like:"):
-                # *_like without dtype: the prototype decides.  Fresh float results (sqrt, arithmetic with floats) are fine; a caller's array is not.
-                proto_is_param = "$" in c and "np." not in c
-                ctx.add("R4", "%s|allocation|%s" % (qn, key), "VIOLATED" if proto_is_param else "DISCHARGED",
-                        ("the buffer copies the dtype of the caller's array %s" % c[5:]) if proto_is_param else "the buffer copies the dtype of a freshly computed array (%s)" % c[5:], fn=qn, line=line)
+            elif c.startswith("like-param:"):
+                # *_like without dtype copies the prototype's dtype: a (view of a) caller's array makes the buffer integer for integer inputs
+                ctx.add("R4", "%s|allocation|%s" % (qn, key), "VIOLATED", "the buffer copies the dtype of the caller's array %s while it receives floating-point values" % c[11:], fn=qn, line=line)
             elif c.startswith("dtype-param:"):
                 pn = c.split(":", 1)[1]
                 dflt = f.defaults.get(pn)
